@@ -51,7 +51,8 @@ var c08Causes = []string{"sshd-eof", "audit-eof", "audit-unparsable", "write-err
 func c08Matrix() []c08Case {
 	var cs []c08Case
 	for _, c := range c08Causes {
-		cs = append(cs, c08Case{c, "idle"}, c08Case{c, "load"})
+		// idle-debug: as idle, with the daemon started at -log-level debug (fail-stop must not depend on the log level)
+		cs = append(cs, c08Case{c, "idle"}, c08Case{c, "load"}, c08Case{c, "idle-debug"})
 	}
 	// mis-configured input paths (start-up failures; the other ingester is left waiting for its FIFO or reading it)
 	cs = append(cs,
@@ -178,7 +179,11 @@ func runC08Scenario(bin, dir, cause, variant string, rep int) (r result) {
 		return
 	}
 	defer stderrF.Close()
-	cmd := exec.Command(bin, "-sshd-pipe-path", sshdPath, "-auditd-pipe-path", auditPath, "-app-events-output", outPath)
+	dargs := []string{"-sshd-pipe-path", sshdPath, "-auditd-pipe-path", auditPath, "-app-events-output", outPath}
+	if strings.HasSuffix(variant, "-debug") {
+		dargs = append(dargs, "-log-level", "debug")
+	}
+	cmd := exec.Command(bin, dargs...)
 	cmd.Env = append(os.Environ(), "NODE_NAME=verif-node")
 	cmd.Stdout = stderrF
 	cmd.Stderr = stderrF
